@@ -287,6 +287,8 @@ def lfarm_history(seed, nops, ops=None, cfg=None):
 
 # ====================================================================== farm-staking
 def staking_probe(w, op, rng):
+    """two quotes per claim: the claimer passed explicitly, and the default (no user argument: the view
+    then uses the position's recorded original owner)"""
     vm, A = w.vm, w.addr
     qs = []
     if op[0] != "Claim":
@@ -295,14 +297,16 @@ def staking_probe(w, op, rng):
     raw = vm.attrs(A[c], ss.FARM, n)
     if not raw:
         return qs
-    args = [top_u(x), raw]
-    r, same = qview(vm, [w.sc], w.sc, "calculateRewardsForGivenPosition", args)
-    q = dict(view="calculateRewardsForGivenPosition", user=c, x=x, rps=ss.dec_sattrs(raw)[0], ok=r.ok, msg=r.msg,
-             v=uval(r), unchanged=same, blk=w.blk, tx_ok=None)
-    if rng.random() < 0.06:
-        t = vm.call(A[c], w.sc, "calculateRewardsForGivenPosition", args)
-        q["tx_ok"] = t.ok
-    qs.append(q)
+    rps, _, _, owner_addr = ss.dec_sattrs(raw)
+    owner = w.ids.get(owner_addr, -1)
+    for mode, args in (("explicit", [top_u(x), raw, A[c]]), ("default", [top_u(x), raw])):
+        r, same = qview(vm, [w.sc], w.sc, "calculateRewardsForGivenPosition", args)
+        q = dict(view="calculateRewardsForGivenPosition", mode=mode, user=c, owner=owner, x=x, rps=rps, ok=r.ok, msg=r.msg,
+                 v=uval(r), unchanged=same, blk=w.blk, tx_ok=None)
+        if mode == "explicit" and rng.random() < 0.06:
+            t = vm.call(A[c], w.sc, "calculateRewardsForGivenPosition", args)
+            q["tx_ok"] = t.ok
+        qs.append(q)
     return qs
 
 
@@ -334,6 +338,10 @@ def staking_history(seed, nops, ops=None, cfg=None):
     rng = random.Random(seed)
     if cfg is None:
         cfg = ss.gen_cfg(rng)
+        # quotes with a pending boosted part need boosted yields on and an accrual that is not starved by the APR cap
+        cfg["boost"] = cfg["boost"] or rng.random() < 0.4
+        if cfg["boost"] and cfg["apr"] < 2500 and rng.random() < 0.8:
+            cfg["apr"] = rng.choice([2500, 10000, 10 ** 6, 10 ** 12])
     w = ss.StakingWorld(cfg)
     trace = []
     try:
@@ -342,6 +350,10 @@ def staking_history(seed, nops, ops=None, cfg=None):
             qs = staking_probe(w, op, rng)
             o = w.exec(op)
             if o is not None:
+                for q in qs:
+                    # the boosted amount of the queried user is observable only through the claimer's own claim
+                    q["b"] = o["b"]
+                    q["known"] = bool(o["ok"]) and (q["mode"] == "explicit" or q["owner"] == q["user"])
                 o["q20"] = qs
             trace.append((op, o))
     finally:
@@ -354,7 +366,7 @@ def staking_coq(cfg, trace):
     for op, o in trace:
         if o is None or op[0] == "Transfer":
             continue
-        qs = "; ".join(f"RStk.SQ {q['blk']} {q['x']} {q['rps']} {cb(q['ok'])} {q['v']}" for q in o["q20"])
+        qs = "; ".join(f"RStk.SQ {q['blk']} {q['x']} {q['rps']} {zlit(q['b'])} {cb(q['known'])} {cb(q['ok'])} {q['v']}" for q in o["q20"])
         items.append(f"({ss.coq_op(op, o)}, {ss.coq_obs(op, o)}, [{qs}])")
     return (f"(RStk.trace (init_stk {cfg['dsc']} {cfg['apr']} {cfg['minub']}) 0 [\n    " + ";\n    ".join(items) + "])")
 
